@@ -126,6 +126,39 @@ PLAN["C12"] = dict(
     explanation="registry invariant (every entry stored under its own name, ids injective) preserved by handle_host_id / handle_module_id; acceptance implies no id or name clash with any registered "
                 "item (the search loops' normal exit), each error is raised only when the corresponding clash exists, range errors exactly outside the permitted ranges (with the core_defs / "
                 "import_coredefs exemptions); validate_msg_id likewise for messages, signals and reserved ids")
+from pyvc import tables as _tables, detcheck as _detcheck
+PLAN["C04"] = dict(
+    functions=[], extra=[_tables.check], level="other",
+    level_text="PARTIAL. Only clause T1 of the design is decided: the six hand-written native type tables (parser supported_types, Parser.get_ctype_cls, python type_map and "
+               "desctype_map, c99, javascript, matlab type_map) are read from the AST of the current tree and 27 names x 6 tables = 162 ground obligations (same width, same signedness/kind, "
+               "every name the parser accepts has an entry in every table) are discharged by z3. That every back end prints the same ids, hashes, field order and array lengths from the shared "
+               "parser model (T2-T7: emitted text against target-language readers) is NOT decided: the Emit domain of DESIGN 2.5 was not built. Struct size/offset agreement rests on C11.",
+    technique="contract-based: table-agreement obligations generated from the dict literals in the real source, discharged by z3 (ground); no model of the emitted text",
+    assumptions=["meaning of each target type name (int32_t, Int32Array, 'int32', ctypes.c_int32 ...) is a fixed (width, kind) table inside pyvc/tables.py (LP64 C ABI for the ctypes names)",
+                 "T2-T7 (emitters print the shared model faithfully in all four languages) are not decided by this check"],
+    explanation="T1 only: native type tables of the five back ends and the parser agree on width and kind for every accepted native type name")
+PLAN["C16"] = dict(
+    functions=[], extra=[_detcheck.check], level="other",
+    level_text="PARTIAL. (a) determinism: one effect obligation per function of parser.py, compile.py and compilers/*.py - it reads no clock, random source, environment variable, object "
+               "identity or hash and iterates over no set - discharged by a syntactic frame analysis of the AST (a frame condition, not an SMT proof); (c) currency: the ground obligation "
+               "compile(core_defs.yaml) == shipped core_defs.py (byte for byte, two runs equal) is decided by evaluating the real compiler on the real files. (b) the combined-YAML round trip is NOT decided.",
+    technique="contract-based frame conditions (effect obligations per function, decided syntactically) plus one ground obligation decided by evaluating the real compiler; no SMT",
+    assumptions=["library calls (ruamel.yaml, black, hashlib, textwrap, re, pathlib) are deterministic functions of their arguments", "dicts iterate in insertion order (language guarantee)"],
+    explanation="determinism as a frame condition over every compiler function; currency of core_defs.py as a ground fact; combined-YAML clause not decided")
+
+NOT_APPLICABLE = {
+    "C10": "not decided: the round trip goes through json.dumps/json.loads, ctypes reflection over _fields_ of arbitrary generated classes and float repr; the string/float theories needed (float <-> shortest-repr "
+           "text, JSON escaping) are outside what the z3/cvc5 encodings built here can discharge, and a bounded CrossHair run would not count as proved. The defect found by reading (stale bytes after "
+           "NUL in char arrays) was repaired under C09/C10 (see known_findings.json).",
+    "C13": "not decided as a whole: the central obligation (hash == sha256 of a canonical text that is an injective function of name, id and field list) needs the free-monoid template equality and the "
+           "unique-parse lemma over strings (DESIGN 2.5), which were not built. The last clause (senders stamp header.version = type_hash) IS proved, as a postcondition of Client.send_message inside the C08/C02 "
+           "runs (tag C13), and the emitters' 8-hex-digit prefix is read off one parser field; neither is claimed as a check of C13.",
+    "C15": "not decided: the property is about generated C / JavaScript / MATLAB / Python text loading in its language; it needs reader models of four target languages (DESIGN 2.5 Emit domain), not built. "
+           "Known emission-order defects (alias of struct, struct with message field, JS Array.fill) were reproduced by hand in phase 1 and are described in DESIGN 8; they are not checked mechanically.",
+    "C17": "not applicable to this family as built: the property quantifies over interleavings of the recording thread and the writer thread; the verifier is sequential and the rely/guarantee pass planned "
+           "in DESIGN 5 (C17) was not brought to generate its obligations mechanically from the two thread bodies, so the interleaving clause is withdrawn as the design said it would be. The race found by "
+           "reading in phase 1 (write_to_disk cleared before write_finished is set) is described in DESIGN; it is not repaired because no check here would guard the repair.",
+}
 for _p in PLAN.values():
     _p.setdefault("level", "proof")
     _p.setdefault("trusted_base", ["pyvc (ast -> VC generator written for this task)", "z3 5.1.0", "cvc5 1.0.3", "sidecar contracts in /verif/contracts"])
